@@ -1,27 +1,3 @@
-/-
-  Line-protocol driver: one JSON object per input line, one JSON value per output line.
-  `{"m": <model>, "op": <operation>, ...}`.  It only (de)serialises and calls the
-  executable model definitions the theorems are about.
--/
+import SuppModel.Drv.Main
 import SuppModel.Drv.Msgpack
-
-open Lean SuppModel.Drv
-
-def dispatch (j : Json) : Json :=
-  match jstr j "m" with
-  | .ok "msgpack" => SuppModel.Drv.Msgpack.handle j
-  | .ok "ping" => Json.mkObj [("ok", Json.str "pong")]
-  | _ => errJson "unknown model"
-
-partial def loop (hin hout : IO.FS.Stream) : IO Unit := do
-  let line ← hin.getLine
-  if line.isEmpty then return ()
-  let out := match Json.parse line with
-    | .ok j => dispatch j
-    | .error e => errJson ("parse: " ++ e)
-  hout.putStrLn out.compress
-  hout.flush
-  loop hin hout
-
-def main : IO Unit := do
-  loop (← IO.getStdin) (← IO.getStdout)
+def main : IO Unit := SuppModel.Drv.runLoop SuppModel.Drv.Msgpack.handle
